@@ -127,7 +127,7 @@ def gen_level(rng, level, height, dim, force_engine=None):
     lv["sample_std"] = rng.choice([0.05, 0.3, 1.0, 3.0])
     if eng in SEA_ENGINES:
         lv["mutation_std"] = rng.choice([0.01, 0.2, 1.0, 5.0])
-        lv["p_mutation"] = rng.choice([1.0, 1.0, 0.3, 0.7])
+        lv["p_mutation"] = rng.choice([1.0, 1.0, 0.3, 0.7, 0.1])
         lv["p_crossover"] = rng.choice([0.7, 1.0, 0.2])
         lv["k_elites"] = rng.choice([1, 1, 2, 3, 0])
         if eng == "SEAWithAdaptiveMutation":
@@ -148,6 +148,9 @@ def gen_level(rng, level, height, dim, force_engine=None):
         lv["gens"] = rng.randint(1, 5)
     if eng == "Local":
         lv["maxiter"] = rng.choice([None, 3, 10])
+        lv["method"] = rng.choice(["L-BFGS-B", "L-BFGS-B", "Nelder-Mead", "Powell"])   # bound-aware methods whose callback receives an OptimizeResult
+        if lv["method"] in ("Nelder-Mead", "Powell") and lv["maxiter"] is None:
+            lv["maxiter"] = 15
     return lv
 
 
@@ -209,6 +212,8 @@ def gen_spec(seed, **force):
     spec["objective"] = force.get("objective") or gen_objective(rng, dim, box, maximize, force.get("objective_kind"))
     engines = force.get("engines")
     spec["levels"] = [gen_level(rng, l, height, dim, engines[l] if engines else None) for l in range(height)]
+    for lv, patch in zip(spec["levels"], force.get("levels_patch") or []):
+        lv.update(patch or {})
     spec["gsc"] = force.get("gsc") or gen_gsc(rng, height)
     spec["sprout"] = force.get("sprout") or gen_sprout(rng, height)
     spec["hibernation"] = force.get("hibernation", rng.random() < 0.35)
@@ -266,7 +271,7 @@ class CapGSC:
         return f"Cap({self.inner})"
 
 
-def build(spec, objective_wrapper=None):
+def build(spec, objective_wrapper=None, session=None):
     """returns (TreeConfig, info).  objective_wrapper(level, f) lets the recorder wrap the raw objective."""
     import pyhms
     from pyhms import (AllChildrenStopped, AllStopped, CMALevelConfig, DELevelConfig, DontRun, DontStop, EALevelConfig,
@@ -290,7 +295,7 @@ def build(spec, objective_wrapper=None):
     problems = []
     for l in range(spec["height"]):
         f = objective_wrapper(l, raw) if objective_wrapper else raw
-        base = FunctionProblem(f, bounds, spec["maximize"])
+        base = FunctionProblem(f, bounds, spec["maximize"], use_cache=True) if spec["wrappers"] == "cache" else FunctionProblem(f, bounds, spec["maximize"])
         p = base
         w = spec["wrappers"]
         if w == "counting":
@@ -371,6 +376,8 @@ def build(spec, objective_wrapper=None):
             levels.append(CMALevelConfig(problem=p, lsc=lsc, generations=lv["gens"], sigma0=None, set_stds=True))
         elif e == "Local":
             kw = {} if lv.get("maxiter") is None else {"maxiter": lv["maxiter"]}
+            if lv.get("method", "L-BFGS-B") != "L-BFGS-B":
+                kw["method"] = lv["method"]
             levels.append(LocalOptimizationConfig(problem=p, lsc=lsc, **kw))
         elif e == "LHS":
             levels.append(LHSLevelConfig(problem=p, lsc=lsc, pop_size=lv["pop"]))
@@ -431,9 +438,17 @@ def build(spec, objective_wrapper=None):
                 dfs.append(DemeLimit(f["n"]))
         tfs = [LevelLimit(f["n"]) if f["kind"] == "LevelLimit" else SkipSameSprout() for f in s["tree_filters"]]
         mech = SproutMechanism(gen, dfs, tfs)
+    if session is not None:
+        # a session of several trees in one process: the same sprout-mechanism object is handed to every tree of the session
+        if "mech" in session:
+            mech = session["mech"]
+        else:
+            session["mech"] = mech
     options = {"random_seed": spec["random_seed"], "hibernation": spec["hibernation"], "log_level": "warning"}
     from pyhms.logging_ import LoggingLevel
     options["log_level"] = LoggingLevel.WARNING
+    if spec.get("omit_default_options") and not spec["hibernation"]:
+        del options["hibernation"]       # rely on the documented default (False)
     cfg = TreeConfig(levels, gsc, mech, options=options, config_class_to_deme_class=custom_map)
     info["raw_objective"] = raw
     info["bounds"] = bounds
